@@ -24,6 +24,15 @@ def gen_cases(rng, n, max_depth, exhaustive_children=False):
         r = H.gen_hierarchy(rng, max_depth=rng.randint(1, max_depth), max_children=4, mixed_types=rng.choice([0.0, 0.0, 0.3]), p_through=rng.choice([0.1, 0.35]))
         if H.count_nodes(r) > 10:
             continue
+        if rng.random() < 0.25:
+            # two input ports of one subroutine declared with the SAME size symbol: which of them defines the symbol (and which
+            # only yields a constraint) must not depend on the order the ports are listed in
+            cands = [nd for nd, path in H._nodes(r) if path and len([p for p in nd["ports"] if p["direction"] == "input" and p["size"] and p["size"][0] == "s"]) >= 2]
+            if cands:
+                nd = rng.choice(cands)
+                ps = [p for p in nd["ports"] if p["direction"] == "input" and p["size"] and p["size"][0] == "s"]
+                pa, pb = rng.sample(ps, 2)
+                pb["size"] = pa["size"]
         if exhaustive_children and 2 <= len(r["children"]) <= 4:
             for perm in itertools.permutations(range(len(r["children"]))):
                 out.append({"routine": r, "seed": rng.randint(0, 10**9), "child_perm": list(perm)})
@@ -31,6 +40,8 @@ def gen_cases(rng, n, max_depth, exhaustive_children=False):
             out.append({"routine": r, "seed": rng.randint(0, 10**9)})
             if rng.random() < 0.4:
                 out[-1]["reverse"] = True      # the exactly reversed listing: every pairwise order is flipped
+            if rng.random() < 0.5:
+                out[-1]["as_object"] = True    # the permuted listing handed over as a validated object whose lists keep that order
     return out
 
 
